@@ -392,6 +392,17 @@ pub fn gen_spec(rng: &mut Rng, prop: &str, tier: Tier) -> Spec {
     if oversized_profile {
         bits = rng.range(84, 106) as u32;
     }
+    // thorough only: a factor base above 5000 primes makes relations::final_step switch from Gauss to
+    // block Lanczos, whose random start block comes from the simulator's thread_rng stream
+    let lanczos_profile = !oversized_profile
+        && tier == Tier::Thorough
+        && (prop == "C04" || prop == "C02")
+        && algo == Algo::Siqs
+        && rng.chance(0.05);
+    if lanczos_profile {
+        // below ~145 bits fewer than 5000 distinct primes occur in the relations whatever the factor base
+        bits = rng.range(146, 156) as u32;
+    }
     let mut tries = 0;
     let (primes, mut shape) = loop {
         tries += 1;
@@ -401,6 +412,9 @@ pub fn gen_spec(rng: &mut Rng, prop: &str, tier: Tier) -> Spec {
         }
         let (primes, shape) = if algo == Algo::Ecm {
             gen_number_ecm(rng, bits)
+        } else if lanczos_profile {
+            let a = bits / 2;
+            (vec![gen_prime(rng, a), gen_prime(rng, bits - a)], "semiprime_balanced".to_string())
         } else {
             gen_number(rng, bits)
         };
@@ -449,7 +463,10 @@ pub fn gen_spec(rng: &mut Rng, prop: &str, tier: Tier) -> Spec {
         "C05" => 0.3,
         _ => 0.5,
     };
-    if oversized_profile {
+    if lanczos_profile {
+        spec.fb_size = Some(rng.range(11000, 14000) as u32);
+        shape.push_str("+lanczos_final_step");
+    } else if oversized_profile {
         let d = default_fb(algo, &spec.n).max(16);
         spec.fb_size = Some((d * *rng.pick(&[4u32, 6, 8, 10])).clamp(64, 20_000));
         shape.push_str("+oversized_fb");
@@ -968,6 +985,14 @@ impl Family for FactorFamily {
             if spec.algo == Algo::Mpqs && r.chance(0.7) {
                 cfg.claim_policy = ClaimPolicy::InOrder;
             }
+            if spec.shape.contains("lanczos_final_step") {
+                cfg.rng_bias = match r.below(4) {
+                    0 => simcore::RngBias::LowWeight { prefix: 30000 },
+                    1 => simcore::RngBias::Repeated { prefix: 30000 },
+                    2 => simcore::RngBias::ZeroLanes { prefix: 30000 },
+                    _ => simcore::RngBias::Fair,
+                };
+            }
             let with_pred = need_pred;
             let mut abort_fault = false;
             if prop == "C05" || (prop == "C01" && r.chance(0.5)) {
@@ -1003,6 +1028,10 @@ impl Family for FactorFamily {
             }
             rep.stat("relations_checked", out.obs.cycles_checked + out.obs.stored_checked);
             rep.stat("map_invariant_breaks", out.obs.map_invariant_breaks);
+            if out.sim.rng_draws > 0 {
+                rep.stat("runs_whose_final_step_used_lanczos", 1);
+                rep.stat("lanczos_rng_words_drawn", out.sim.rng_draws);
+            }
             if let (Some(a), Some(b)) = (&out.answer, &reference.answer) {
                 if a != b {
                     rep.stat("answer_differs_from_reference", 1);
